@@ -60,3 +60,9 @@ Example C08_ex3 : format (mkD [1;2] []) (FN SMemo (-3)) 103 None None false = [4
 Proof. vm_compute. reflexivity. Qed.
 Example C08_ex4 : format (mkD [5] []) (FN SMemo 1) 100 None None false = [37;33;100;40;110;117;109;98;101;114;61;53;41].
 Proof. vm_compute. reflexivity. Qed.
+
+(* the constants these theorems are about are the ones in the Go sources now (Generated/SrcParams.v, rewritten on
+   every run by harness/cmd/srcparams) *)
+Require SrcParamsOK.
+Definition C08_source_constants := (SrcParamsOK.compute_constants_v1, SrcParamsOK.compute_constants_v2, SrcParamsOK.compute_constants_v3,
+  SrcParamsOK.cube_next_digit_identities, SrcParamsOK.format_constants).
